@@ -1,8 +1,9 @@
 #!/bin/bash
 # experiment on a scratch worktree (never /repo): usage try_mut_wt.sh <worktree> <workdir> <patch|-> Cxx [Cyy...]
+# NOTE: cleans untracked files of the worktree except target/, patch.diff, demo*, _out, *.log (round 3 lost two deliverables to an unrestricted clean)
 wt=$1; wk=$2; patch=$3; shift 3
 cd $wt || exit 9
-git checkout -q -- . ; git clean -fdq -e target
+git checkout -q -- . ; git clean -fdq -e target -e patch.diff -e 'demo*' -e '_out' -e '*.log'
 if [ "$patch" != "-" ]; then git apply "$patch" || { echo "patch does not apply"; exit 9; }; fi
 mkdir -p $wk
 for id in "$@"; do
